@@ -18,7 +18,9 @@ SIGMA = ["a", " ", "%", "s", "(", ")", "é", '"', "\\"]
 EXTRA = ["%s", "%(message)s", "%d%n", " lead", "trail ", "  ", "密码", "A" * 200, "{0}", "%%", "pa ss", "\\n"]
 SHAPES = ["accept", "reject", "before-user", "after-login", "anonymous-then-pass", "retry", "unknown-user",
           # what happens *after* an accepted login, alone and next to another session of the same account
-          "accept-then-work", "accept-relogin", "two-sessions-quit-relogin", "two-sessions-drop-relogin"]
+          "accept-then-work", "accept-relogin", "two-sessions-quit-relogin", "two-sessions-drop-relogin",
+          # a custom user manager that guards its password check with aioftp.with_timeout, and the check stalls
+          "auth-times-out"]
 ACCEPTING = ("accept", "retry", "accept-then-work", "accept-relogin", "two-sessions-quit-relogin", "two-sessions-drop-relogin")
 SPELL = ["PASS", "pass", "PaSs"]
 # spellings that are not PASS under str.lower() but are under other case mappings (casefold, upper): if the server
@@ -61,8 +63,25 @@ def scenario(shape, spelling, p, via_client):
     table_pw = p if shape in ACCEPTING and isinstance(p, str) else "Other-Password-1"
     # the line protocol strips trailing blanks, so such a password can never be accepted: keep the shape but
     # the outcome is part of the comparison
+    def user_table(a, base):
+        table = users(a, base, table_pw)
+        if shape != "auth-times-out":
+            return table
+        import asyncio
+
+        class TimedManager(a.MemoryUserManager):
+            def __init__(self, table):
+                super().__init__(table, timeout=0.25)
+
+            @a.with_timeout
+            async def authenticate(self, user, password):
+                await asyncio.sleep(1)           # the back end does not answer in time
+                return await super().authenticate(user, password)
+
+        return TimedManager(table)
+
     with logcap.capture() as cap:
-        rig = Rig(tree={"f": b"x"}, users=lambda a, base: users(a, base, table_pw), n_sessions=2,
+        rig = Rig(tree={"f": b"x"}, users=user_table, n_sessions=2,
                   server_kwargs={"wait_future_timeout": 1})
         try:
             w = rig.world
@@ -98,6 +117,7 @@ def scenario(shape, spelling, p, via_client):
                     "accept-relogin": ["USER bob", line, "PWD", "USER bob", line, "PWD", "USER anonymous", "USER bob", line],
                     "two-sessions-quit-relogin": ["USER bob", line, (1, "@connect"), (1, "USER bob"), (1, line),
                                                   "QUIT", (1, "USER bob"), (1, line), (1, "PWD")],
+                    "auth-times-out": ["USER bob", line],
                     "two-sessions-drop-relogin": ["USER bob", line, (1, "@connect"), (1, "USER bob"), (1, line),
                                                   "USER bob", (1, "@drop"), line, "PWD", "USER bob", line],
                 }[shape]
